@@ -252,7 +252,7 @@ def invalid_for(spec, rng, depth=0):
     cands += ['__no_member__', 12345]
   elif isinstance(spec, T.List):
     cands += [1, 'x', {'a': 1}]
-    ok = value_for(spec, rng, True, depth)
+    ok = value_for(spec, rng, True, depth) or []   # None: a noneable list spec
     if spec.max_size is not None:
       extra = [value_for(spec.element.value, rng, True, depth + 1)
                for _ in range(spec.max_size + 1 - len(ok))]
